@@ -89,6 +89,9 @@ pub assume_specification [<Regions as Default>::default] () -> (r: Regions)
             ("""res is Ok && res->Ok_0 is Some ==> resolve_regions_spec(&final(semantic).type_registry, *resolvee_path, regions@, vftable_functions,
                     target_size, (res->Ok_0->0).1, (res->Ok_0->0).0@, (res->Ok_0->0).2)""", ("C01", "C17", "C20"), "regions-functional-spec"),
             ("final(semantic).modules@.dom() == old(semantic).modules@.dom()", ("C12", "C10"), "keeps-modules"),
+            ("reg_wf(&final(semantic).type_registry)", ("C10",), "keeps-reg-wf"),
+            ("keys_kept(&old(semantic).type_registry, &final(semantic).type_registry)", ("C10", "C14"), "keys-kept"),
+            ("final(semantic).type_registry.pointer_size == old(semantic).type_registry.pointer_size", ("C10",), "keeps-pointer-size"),
             ("registry_frame(&old(semantic).type_registry, &final(semantic).type_registry, *resolvee_path)", ("C10", "C19"), "attempt-frame"),
         ])
     # first base: `regions.iter().map(|t| &t.1).find(|r| r.is_base)`
@@ -112,6 +115,8 @@ pub assume_specification [<Regions as Default>::default] () -> (r: Regions)
         ("vr0 is Some ==> resolved.regions@.len() > 0 && resolved.regions@[0] == vr0->0", ("C06",)),
         ("semantic.modules@.dom() == old(semantic).modules@.dom()", ("C10",)),
         ("registry_frame(&old(semantic).type_registry, &semantic.type_registry, *resolvee_path)", ("C10", "C19")),
+        ("keys_kept(&old(semantic).type_registry, &semantic.type_registry)", ("C10",)),
+        ("semantic.type_registry.pointer_size == old(semantic).type_registry.pointer_size", ("C10",)),
         "resolved.last_address == sum_sizes(resolved.regions@, &semantic.type_registry)",
         "all_sized(resolved.regions@, &semantic.type_registry)",
         "pos.len() == it.index()",
@@ -156,6 +161,8 @@ pub assume_specification [<Regions as Default>::default] () -> (r: Regions)
     rules.for_mut_to_iter_mut(fw, l2)
     loop_spec(ctx, fw, u, l2, label="it2", tags=L, invariants=[
         "reg == &semantic.type_registry",
+        ("keys_kept(&old(semantic).type_registry, &semantic.type_registry)", ("C10",)),
+        ("semantic.type_registry.pointer_size == old(semantic).type_registry.pointer_size", ("C10",)),
         ("vr0 is Some ==> pre.len() > 0 && pre[0] == vr0->0", ("C06",)),
         ("semantic.modules@.dom() == old(semantic).modules@.dom()", ("C10",)),
         ("registry_frame(&old(semantic).type_registry, &semantic.type_registry, *resolvee_path)", ("C10", "C19")),
